@@ -84,6 +84,39 @@ def rot(w, r):
     return [(i + r) % w for i in range(w)]
 
 
+CELL = 'c11cell'
+
+
+def new_cell():
+    return {'l': [0], 'n': {'x': 0}}
+
+
+def cell_view(data):
+    """Deep value of the cell, read at observation time (after the control pass)."""
+    c = data[CELL] if CELL in data else new_cell()
+    return {'l': [int(v) for v in c['l']], 'x': int(c['n']['x'])}
+
+
+GS_NAMES = ['XGate', 'YGate', 'ZGate', 'HGate', 'SGate', 'TGate', 'SXGate', 'SdgGate', 'TdgGate']
+
+
+def gate_set_of(id):
+    """The gate set body `id` installs: the first id + 2 one-qubit gates of GS_NAMES (never contains CNOT)."""
+    from bqskit.compiler.gateset import GateSet
+    from bqskit.ir import gates as G
+    return GateSet({getattr(G, n)() for n in GS_NAMES[:id + 2]})
+
+
+def gs_view(data):
+    """0: no body's gate set (the default one, it has a two-qudit gate); id: the one body id installed."""
+    gs = data.gate_set
+    names = sorted(type(g).__name__ for g in gs)
+    for id in range(1, 8):
+        if names == sorted(GS_NAMES[:id + 2]):
+            return id
+    return 0 if any(g.num_qudits > 1 for g in gs) else -1
+
+
 def blk_of(data):
     try:
         v = data[CTX_KEY] if CTX_KEY in data else -1
@@ -113,10 +146,14 @@ def make_classes():
 
     class Body(BasePass):
         """beh: 0 mark, 1 identity, 2 rewrite (retag every primitive op), 3 shrink to empty, 4 grow, 5 raise.
-        wd/wm/we: write user keys / placement+mappings / error."""
+        wd/wm/we: write user keys / placement+mappings / error (all by assignment: the key / field is re-bound).
+        wi: writes that go INTO objects the pass data already holds -- 1: edit the pre-existing value of key 'cell' in
+        place (append to its list, bump an entry of its nested dict); 2: bind 'cell' to a new object; 3: edit the list
+        objects handed out by data.initial_mapping / data.final_mapping in place; 4: the same for data.placement;
+        5: data.gate_set = ... (assigns into the MachineModel object the data holds)."""
 
-        def __init__(self, path, id, beh, wd, wm, we):
-            self.path, self.id, self.beh, self.wd, self.wm, self.we = tuple(path), id, beh, wd, wm, we
+        def __init__(self, path, id, beh, wd, wm, we, wi=0):
+            self.path, self.id, self.beh, self.wd, self.wm, self.we, self.wi = tuple(path), id, beh, wd, wm, we, wi
 
         async def run(self, circuit, data):
             from bqskit.ir.circuit import Circuit
@@ -155,6 +192,24 @@ def make_classes():
                 data.error = self.id / float(E0_DEN)
             if 'saw0' not in data:
                 data['saw0'] = list(saw)
+            if self.wi in (1, 2) and CELL not in data:     # block data of a ForEachBlockPass start without the key
+                data[CELL] = new_cell()
+            if self.wi == 1:
+                cell = data[CELL]
+                cell['l'].append(self.id)
+                cell['n']['x'] += self.id
+            elif self.wi == 2:
+                old = data[CELL]
+                data[CELL] = {'l': list(old['l']) + [self.id + 10], 'n': {'x': self.id}}
+            elif self.wi == 3:
+                im, fm = data.initial_mapping, data.final_mapping
+                im[:] = rot(w, self.id + 2)
+                fm[:] = rot(w, 2 * self.id + 2)
+            elif self.wi == 4:
+                pl = data.placement
+                pl[:] = rot(w, self.id + 2)
+            elif self.wi == 5:
+                data.gate_set = gate_set_of(self.id)
 
     class Setup(BasePass):
         """Not part of the pass language: installs the initial error and the block-index pass-down table."""
@@ -165,6 +220,7 @@ def make_classes():
         async def run(self, circuit, data):
             data.error = self.e0 / float(E0_DEN)
             data[CTX_KEY] = {i: i for i in range(64)}
+            data[CELL] = new_cell()        # the mutable value that exists before any control pass starts
 
     class Pred(PassPredicate):
         """kind 0: scripted per (node, block); 1 true; 2 false; 3: the circuit has at least two operations."""
@@ -254,6 +310,145 @@ def make_classes():
 Body = Setup = Pred = Cond = LessThan = CollectFilter = ReplaceFilter = None
 
 
+# ------------------------------------------------------------------ ForEachBlockPass and block parameters (specs/control/ForEachParams.tla)
+ANGLE_SETS = {0: [0, 0, 0], 1: [1, 4, 2], 2: [3, 0, 7], 3: [0, 4, 5]}      # units of pi/4, as AngleSets in the spec
+P_LOCS = [(0, 1), (2, 1), (0, 1)]
+P_PRIMS = [('CX', (0, 2)), ('T', (1,)), ('X', (2,))]
+PROBE_KEY = 'c11probe'
+RECV_KEY = 'c11recv'
+
+
+def exact_flatten(circ):
+    """Circuit -> op records of Monomial.tla; a CircuitGate operation is a BLOCK whose inner ops carry the angles of the
+    OPERATION (op.params), which are the ones that define what the operation is."""
+    from bqskit.ir.gates import CircuitGate
+    from harness import exact
+    out = []
+    for op in circ:
+        g = op.gate
+        if isinstance(g, CircuitGate):
+            inner = g._circuit.copy()
+            inner.set_params(op.params)
+            out.append(exact.op_record('BLOCK', [], [int(q) for q in op.location], ops=exact_flatten(inner)))
+        else:
+            nm = exact.gate_name(g, op.params)
+            if nm is None:
+                raise ValueError('operation outside the exact library: %r %r' % (g, list(op.params)))
+            out.append(exact.op_record(nm[0], nm[1], [int(q) for q in op.location]))
+    return out
+
+
+def template_circuit(angles):
+    import math
+    from bqskit.ir.circuit import Circuit
+    from bqskit.ir.gates import CNOTGate, RYGate, RZGate
+    a = [x * math.pi / 4 for x in angles]
+    c = Circuit(2)
+    c.append_gate(RZGate(), 0, [a[0]])
+    c.append_gate(RYGate(), 1, [a[1]])
+    c.append_gate(CNOTGate(), (0, 1))
+    c.append_gate(RZGate(), 1, [a[2]])
+    return c
+
+
+def build_param_circuit(hist):
+    """Replay the build actions of a behaviour of ForEachParams.tla (own / shared / retune) into a real circuit."""
+    import math
+    from bqskit.ir.circuit import Circuit
+    from bqskit.ir.gates import CircuitGate
+    from harness import exact
+    c = Circuit(3)
+    shared = None
+    nb = 0
+    cur = []
+    for h in hist:
+        if h['k'] in ('own', 'shared'):
+            ang = [x * math.pi / 4 for x in ANGLE_SETS[h['a']]]
+            if h['k'] == 'own':
+                gate = CircuitGate(template_circuit(ANGLE_SETS[h['a']]))
+            else:
+                if shared is None:
+                    shared = CircuitGate(template_circuit(ANGLE_SETS[0]))
+                gate = shared
+            c.append_gate(gate, P_LOCS[nb], ang)
+            name, loc = P_PRIMS[nb]
+            c.append_gate(exact.bq_gate(name), loc)
+            cur.append(h['a'])
+            nb += 1
+        elif h['k'] == 'retune':
+            cur = [(a % 3) + 1 for a in cur]
+            c.set_params([x * math.pi / 4 for a in cur for x in ANGLE_SETS[a]])
+        else:
+            raise ValueError(h)
+    return c
+
+
+def make_param_classes():
+    global Probe, ParamBody
+    if Probe is not None:
+        return
+    make_classes()
+    from bqskit.compiler.basepass import BasePass
+
+    class Probe(BasePass):
+        """Not part of the property: records the input the way the ForEachBlockPass will see it (inside the runtime, after
+        the circuit was pickled on submission): exact op records, and per CircuitGate operation the angles stored in its
+        gate next to its own."""
+
+        async def run(self, circuit, data):
+            from bqskit.ir.gates import CircuitGate
+            from harness import exact
+            pairs = []
+            for op in circuit:
+                if isinstance(op.gate, CircuitGate):
+                    pairs.append([[exact.quarter(float(x)) for x in op.gate._circuit.params],
+                                  [exact.quarter(float(x)) for x in op.params]])
+            data[PROBE_KEY] = {'circ0': exact_flatten(circuit), 'pairs': pairs}
+
+    class ParamBody(BasePass):
+        """beh 0: identity; 1: zero the last angle; 2: append Z on qudit 0.  Records what it was handed."""
+
+        def __init__(self, beh):
+            self.beh = beh
+
+        async def run(self, circuit, data):
+            from bqskit.ir.gates import ZGate
+            data[RECV_KEY] = exact_flatten(circuit)
+            if self.beh == 1 and circuit.num_params > 0:
+                p = list(circuit.params)
+                p[-1] = 0.0
+                circuit.set_params(p)
+            elif self.beh == 2:
+                circuit.append_gate(ZGate(), 0)
+
+    for c in (Probe, ParamBody):
+        c.__module__ = __name__
+        c.__qualname__ = c.__name__
+        globals()[c.__name__] = c
+
+
+Probe = ParamBody = None
+
+
+def run_param_case(case, workers=1, sched_seed=0):
+    """One behaviour of ForEachParams.tla on the real ForEachBlockPass (through the simulated runtime)."""
+    make_param_classes()
+    from bqskit.passes import ForEachBlockPass
+    from harness.simcompile import SimCompiler
+    circuit = build_param_circuit(case['hist'])
+    cf = None if case['cf'] == 0 else CollectFilter(('p',), 4)
+    rf = 'always' if case['rf'] == 0 else ReplaceFilter(('p',), 1)
+    fe = ForEachBlockPass(ParamBody(case['body']), calculate_error_bound=bool(case['calc']), collection_filter=cf, replace_filter=rf)
+    reset({})
+    with SimCompiler(num_workers=workers, sched_seed=sched_seed) as sc:
+        out, data = sc.compile(circuit, [Probe(), fe], request_data=True)
+    probe = data[PROBE_KEY]
+    bds = data[ForEachBlockPass.key][-1]
+    return {'r': [2, 2, 2], 'circ0': probe['circ0'], 'pairs': probe['pairs'], 'cf': case['cf'], 'rf': case['rf'], 'body': case['body'],
+            'calc': bool(case['calc']), 'recv': [bd[RECV_KEY] for bd in bds], 'out': exact_flatten(out),
+            'err': frac(data.error, 4096)}
+
+
 # ------------------------------------------------------------------ tree -> real pass
 def build(t, path=()):
     """Pass-tree node (dict k, c, a) -> real pass object."""
@@ -269,7 +464,7 @@ def build(t, path=()):
     k, c, a = t['k'], t['c'], t['a']
     sub = [build(x, tuple(path) + (i + 1,)) for i, x in enumerate(c)]
     if k == 'body':
-        return Body(path, a[0], a[1], bool(a[2]), bool(a[3]), bool(a[4]))
+        return Body(path, a[0], a[1], bool(a[2]), bool(a[3]), bool(a[4]), int(a[5]) if len(a) > 5 else 0)
     if k == 'noop':
         return NOOPPass()
     if k == 'seq':
@@ -331,7 +526,8 @@ def data_view(data, grid=None, block=False):
                        for bd in group])
     return {'d': lst(data['d']) if 'd' in data else [], 'k': int(data['k']) if 'k' in data else 0,
             'pl': lst(data.placement), 'im': lst(data.initial_mapping), 'fm': lst(data.final_mapping),
-            'err': frac(data.error, grid), 'saw0': lst(data['saw0']) if 'saw0' in data else [-1], 'fe': fe}
+            'err': frac(data.error, grid), 'saw0': lst(data['saw0']) if 'saw0' in data else [-1], 'fe': fe,
+            'cell': cell_view(data), 'gs': gs_view(data)}
 
 
 def run_case(case, workers=1, sched_seed=0, force_runtime=False):
@@ -373,4 +569,4 @@ def run_case(case, workers=1, sched_seed=0, force_runtime=False):
     return obs
 
 
-EMPTY_DATA = {'d': [], 'k': 0, 'pl': [], 'im': [], 'fm': [], 'err': [0, 1], 'saw0': [-1], 'fe': []}
+EMPTY_DATA = {'d': [], 'k': 0, 'pl': [], 'im': [], 'fm': [], 'err': [0, 1], 'saw0': [-1], 'fe': [], 'cell': {'l': [0], 'x': 0}, 'gs': 0}
